@@ -58,7 +58,8 @@ RULE = ('case idx -> kind (idx mod 9): all 36 pairs of version ranges; all 45 si
         'same with ecdsa, or full static ECDH (empty ClientKeyExchange, no CertificateVerify), which is accepted only with an ECDH_* '
         'suite and a server key on the client key\'s curve; a certificate without either proof never completes; valid chain and '
         'proof: the handshake completes; no certificate: BR_ERR_NO_CLIENT_AUTH, or completion under BR_OPT_TOLERATE_NO_CLIENT_AUTH. '
-        'distinct = configuration tuples and outcome tuples.')
+        'distinct = configuration tuples and outcome tuples.'
+        ' resume: a first connection stores a session (server with a cache), the same contexts are used again with the client offering it and configurations changed in between (ALPN names of either side, server name, client version range, the remembered suite removed, ALPN strictness flag): abbreviated only if the remembered version and suite are acceptable to both current configurations, else the fresh negotiation result; protocol name and server name are those of the second connection; a second connection that could be negotiated must complete one way or the other.')
 ASSUMPTIONS = [
     'the reference (harness/nego_ref.py) states the rules of inc/bearssl_ssl.h, of the explanatory comments in ssl_hs_server.t0 / '
     'ssl_hs_client.t0 / inner.h and of RFC 5246, 4492, 5746, 7301, 7507; its docstring lists the source of each rule',
@@ -112,7 +113,8 @@ SRV_DEFECTS = ['srvhello_defect_' + d for d in (
     'alpn_name_not_offered_flag', 'framing', 'later_record_version_differs', 'next_message_not_certificate',
     'ccs_instead_of_certificate', 'resume_mismatch', 'handshake_message_instead_of_ccs', 'malformed_ccs',
     'empty_certificate_list', 'certificate_list_length')]
-REQUIRED = ['cases', 'cases_checked', 'cases_pair', 'cases_scripted', 'handshakes_completed', 'handshakes_failed',
+REQUIRED = ['cases', 'cases_checked', 'cases_pair', 'cases_scripted', 'cases_resume', 'cmp_resume_abbreviated', 'cmp_resume_full',
+            'cmp_resume_alpn', 'cmp_resume_sni', 'resume_session_not_acceptable', 'cases_with_previous_life', 'handshakes_completed', 'handshakes_failed',
             'scripted_answered_server_hello', 'scripted_refused', 'expect_ok', 'expect_alert', 'expect_scripted_ok',
             'expect_scripted_alert', 'scripted_duplicate_suites', 'scripted_unknown_suite_values',
             'scripted_without_extension_block',
@@ -127,7 +129,7 @@ REQUIRED = ['cases', 'cases_checked', 'cases_pair', 'cases_scripted', 'handshake
             'client_auth_with_reduced_curves', 'cert_verify_hash_other_than_sha256', 'cert_verify_below_tls12',
             'cmp_client_auth_safety'] + FIELDS + CA_FIELDS + SRV_FIELDS + SRV_DEFECTS
 NW = 16
-CASES = {'quick': 6750, 'thorough': 337500}   # 9 slots (h_tls15 NSLOTS): 750 / 37500 cases per slot
+CASES = {'quick': 7500, 'thorough': 375000}   # 10 slots (h_tls15 NSLOTS): 750 / 37500 cases per slot
 LOGDIR = os.path.join(vbuild.BUILD, 'c15-logs')
 MAX_PER_KEY = 40
 
